@@ -76,6 +76,7 @@ package explain
 //@ define orig(pb *Problem, A asg) bool = forall(i, 0, pb.NbClauses, csat(pb.Clauses[i], len(pb.Clauses[i]), A))
 //@ define lines(pb *Problem, A asg) bool = forall(i, pb.NbClauses, len(pb.Clauses), csat(pb.Clauses[i], len(pb.Clauses[i]), A))
 //@ define entryPb(pb *Problem) bool = pb != nil && len(pb.units) == pb.NbVars && pb.NbClauses == len(pb.Clauses) && litsOK(pb) && sepPb(pb) && tri(pb.units)
+//@ define keptHdr(pb *Problem, n int) bool = forall(i, 0, n, pb.Clauses[i] == old(pb.Clauses[i]))
 //@ define keptPb(pb *Problem, n int) bool = forall(i, 0, n, pb.Clauses[i] == old(pb.Clauses[i]) && forall(k, 0, len(pb.Clauses[i]), pb.Clauses[i][k] == old(pb.Clauses[i][k])))
 
 // Unsat: every certificate line appended to the problem is a consequence of the
@@ -86,8 +87,6 @@ package explain
 //@   requires entry: entryPb(pb)
 //@   modifies pb.Clauses, pb.Clauses[*], pb.tagged, pb.units, pb.units[*]
 //@   assume-input after-call parseClause#1 certRange: litsIn(result0, pb.NbVars)
-//@   assert body-end 1 sameHdr: forall(i, 0, prev(len(pb.Clauses)), pb.Clauses[i] == prev(pb.Clauses[i]))
-//@   assert body-end 1 sameRows: forall(i, 0, prev(len(pb.Clauses)), forall(k, 0, len(pb.Clauses[i]), pb.Clauses[i][k] == prev(pb.Clauses[i][k])))
 //@   assert body-end 1 point: forall(i, 0, prev(len(pb.Clauses)), prev(csat(pb.Clauses[i], len(pb.Clauses[i]), A)) ==> csat(pb.Clauses[i], len(pb.Clauses[i]), A))
 //@   assert body-end 1 lastLine: len(pb.Clauses) == prev(len(pb.Clauses)) + 1 && old(agreesU(A, pb.units)) && old(orig(pb, A)) ==> csat(pb.Clauses[len(pb.Clauses)-1], len(pb.Clauses[len(pb.Clauses)-1]), A)
 //@   assert body-end 1 keepLines: prev(lines(pb, A)) ==> forall(i, pb.NbClauses, prev(len(pb.Clauses)), csat(pb.Clauses[i], len(pb.Clauses[i]), A))
@@ -100,7 +99,7 @@ package explain
 //@   loop 1
 //@     invariant shape: wfPb(pb) && pb.NbClauses == old(pb.NbClauses) && pb.NbVars == old(pb.NbVars) && litsOK(pb) && sepPb(pb) && tri(pb.units)
 //@     invariant own:   grown(pb.units) && grown(pb.Clauses)
-//@     invariant kept:  keptPb(pb, pb.NbClauses)
+//@     invariant kept:  keptHdr(pb, pb.NbClauses)
 //@     invariant units: len(pb.units) == old(len(pb.units)) && forall(v, 0, len(pb.units), pb.units[v] == old(pb.units[v]))
 //@     invariant cons:  old(agreesU(A, pb.units)) && old(orig(pb, A)) ==> lines(pb, A)
 
@@ -123,8 +122,6 @@ package explain
 //@   requires entry: entryPb(pb)
 //@   modifies pb.Clauses, pb.Clauses[*], pb.tagged, pb.units, pb.units[*]
 //@   assume-input after-call parseClause#1 certRange: litsIn(result0, pb.NbVars)
-//@   assert body-end 1 sameHdr: forall(i, 0, prev(len(pb.Clauses)), pb.Clauses[i] == prev(pb.Clauses[i]))
-//@   assert body-end 1 sameRows: forall(i, 0, prev(len(pb.Clauses)), forall(k, 0, len(pb.Clauses[i]), pb.Clauses[i][k] == prev(pb.Clauses[i][k])))
 //@   assert body-end 1 lastLine: len(pb.Clauses) == prev(len(pb.Clauses)) + 1 && old(agreesU(A, pb.units)) && old(orig(pb, A)) ==> csat(pb.Clauses[len(pb.Clauses)-1], len(pb.Clauses[len(pb.Clauses)-1]), A)
 //@   assert body-end 1 point: forall(i, 0, prev(len(pb.Clauses)), prev(csat(pb.Clauses[i], len(pb.Clauses[i]), A)) ==> csat(pb.Clauses[i], len(pb.Clauses[i]), A))
 //@   assert body-end 1 keepLines: prev(lines(pb, A)) ==> forall(i, pb.NbClauses, prev(len(pb.Clauses)), csat(pb.Clauses[i], len(pb.Clauses[i]), A))
@@ -137,6 +134,6 @@ package explain
 //@   loop 1
 //@     invariant shape: wfPb(pb) && pb.NbClauses == old(pb.NbClauses) && pb.NbVars == old(pb.NbVars) && litsOK(pb) && sepPb(pb) && tri(pb.units)
 //@     invariant own:   grown(pb.units) && grown(pb.Clauses)
-//@     invariant kept:  keptPb(pb, pb.NbClauses)
+//@     invariant kept:  keptHdr(pb, pb.NbClauses)
 //@     invariant units: len(pb.units) == old(len(pb.units)) && forall(v, 0, len(pb.units), pb.units[v] == old(pb.units[v]))
 //@     invariant cons:  old(agreesU(A, pb.units)) && old(orig(pb, A)) ==> lines(pb, A)
